@@ -594,6 +594,23 @@ def graph_vs_solver(inp):
     return {"checks": res}
 
 
+def vinterp(inp):
+    from pandapipes.component_models.component_toolbox import vinterp as vi
+    cases, witness = 0, None
+    vals = [0., 1.5, -2.]
+    for n in range(1, 4):
+        for cnt in itertools.product(range(0, 4), repeat=n):
+            for lo in itertools.product(vals, repeat=n):
+                hi = tuple(vals[(vals.index(x) + 1) % 3] for x in lo)
+                cases += 1
+                got = vi(np.array(lo), np.array(hi), np.array(cnt, dtype=np.int32))
+                exp = [lo[i] + (hi[i] - lo[i]) * (r + 1) / (cnt[i] + 1) for i in range(n) for r in range(cnt[i])]
+                if len(got) != len(exp) or not np.allclose(got, exp, rtol=0, atol=1e-12):
+                    if witness is None:
+                        witness = {"lo": lo, "hi": hi, "counts": cnt, "got": np.asarray(got).tolist(), "expected": exp}
+    return {"ok": witness is None, "cases": cases, "witness": witness}
+
+
 def main():
     inp = json.load(sys.stdin)
     fn = globals()[inp["what"]]
